@@ -49,6 +49,8 @@ pub mod c06;
 pub mod c07;
 pub mod c10;
 pub mod c11;
+pub mod c12;
+pub mod c14;
 pub mod c20;
 pub mod subs;
 pub mod work;
